@@ -244,9 +244,24 @@ func treeCase(r *sim.R, k int) {
 		if len(leaves) > 0 {
 			p := leaves[t.Choose(len(leaves), "overlap-leaf")]
 			in = world.Render(a, world.RepGeneric, nil).(map[string]interface{})
-			in[strings.Join(p, ".")] = "dup"
+			switch t.Choose(4, "overlap-kind") {
+			case 0:
+				in[strings.Join(p, ".")] = "dup"
+				r.Fault("input defines one setting twice (nested and dotted)")
+			case 1:
+				// a key below a setting that has a primitive value: defined twice, in whichever order
+				in[strings.Join(p, ".")+".zz"] = "below"
+				r.Fault("input defines a setting below a primitive setting")
+			case 2:
+				// a null below a primitive setting, or for its first list position: defines nothing
+				in[strings.Join(p, ".")+[]string{".zz", ".0"}[t.Choose(2, "null-below")]] = nil
+				r.Fault("input holds a null below a primitive setting")
+			default:
+				// a null for the setting itself next to its value
+				in[strings.Join(p, ".")] = nil
+				r.Fault("input holds a null next to the value of a setting")
+			}
 			detail["overlap"] = "true"
-			r.Fault("input defines one setting twice (nested and dotted)")
 		}
 	}
 	if t.Bool("case-merge") {
